@@ -47,9 +47,38 @@ func (h *Handler) MakeDepositProposal(service *native.NativeService) (*scom.Make
 }
 G
 printf 'package harmony\n' > "$OUT/empty.go"
+# Knob (overlay only, nothing in /repo changes): the main-net height up to which the legacy
+# signature threshold applies becomes a variable so that C14 can exercise the strict rule.
+# If the literal is not found exactly once the knob is left unpatched (VerifKnobPatched=false).
+LS="$REPO/core/store/ledgerstore/ledger_store.go"
+PATCHED=false
+if [ "$(grep -c 'this.GetCurrentHeaderHeight() <= 20000000' "$LS")" = 1 ]; then
+  sed 's/this.GetCurrentHeaderHeight() <= 20000000/this.GetCurrentHeaderHeight() <= VerifLegacyQuorumHeight/' "$LS" > "$OUT/ledger_store_knob.go"
+  PATCHED=true
+fi
+cat > "$OUT/zz_verif_knob.go" <<G
+package ledgerstore
+
+// Overlay-only knob of the verification harness (not part of /repo).
+var VerifLegacyQuorumHeight uint32 = 20000000
+
+const VerifKnobPatched = $PATCHED
+G
+# Knob 2 (overlay only): the block overlay's initial buffer capacity (a 4 MiB allocation per
+# executeBlock, which dominates simulated runs that execute thousands of tiny blocks) is
+# reduced to 64 KiB; the buffer grows on demand, behaviour is unchanged.
+OV="$REPO/core/store/overlaydb/overlaydb.go"
+OVP=false
+if [ "$(grep -c '^const initCap = 4 \* 1024 \* 1024$' "$OV")" = 1 ]; then
+  sed 's/^const initCap = 4 \* 1024 \* 1024$/const initCap = 64 * 1024/' "$OV" > "$OUT/overlaydb_knob.go"
+  OVP=true
+fi
 {
   echo '{"Replace":{'
-  first=1
+  first=0
+  printf '"%s":"%s"' "$REPO/core/store/ledgerstore/zz_verif_knob.go" "$OUT/zz_verif_knob.go"
+  if [ $OVP = true ]; then printf ',\n"%s":"%s"' "$OV" "$OUT/overlaydb_knob.go"; fi
+  if [ $PATCHED = true ]; then printf ',\n"%s":"%s"' "$LS" "$OUT/ledger_store_knob.go"; fi
   for d in native/service/header_sync/harmony native/service/cross_chain_manager/harmony; do
     stub="$OUT/hs_stub.go"; [ "$d" = native/service/cross_chain_manager/harmony ] && stub="$OUT/ccm_stub.go"
     used=0
